@@ -27,7 +27,7 @@ from props import _reflect as R
 
 LEANCHECKER_MODULES = ("FsProofs.C18",)
 
-KINDS = ["mem", "os", "temp", "temp-noclean", "sub(mem)", "sub(os)", "closingsub(mem)", "wrapfs(mem)", "ro(mem)",
+KINDS = ["mem", "os", "temp", "temp-noclean", "temp-strict", "sub(mem)", "sub(os)", "closingsub(mem)", "wrapfs(mem)", "ro(mem)",
          "cachedir(mem)", "sub(sub(mem))", "ro(sub(os))", "cachedir(sub(mem))", "wrapfs(ro(mem))",
          "mount-auto", "mount-noauto", "multi-auto", "multi-noauto",
          "zip-w-temp", "zip-w-mem", "tar-w-temp", "tar-w-mem", "zip-r", "tar-r"]
@@ -79,12 +79,12 @@ def build(kind):
     if kind == "os":
         d = _tmp()
         return K(kind, OSFS(d), lambda: R.snap_dir(d), lambda: shutil.rmtree(d, ignore_errors=True))
-    if kind in ("temp", "temp-noclean"):
+    if kind in ("temp", "temp-noclean", "temp-strict"):
         os.makedirs(H.SCRATCH_ROOT, exist_ok=True)
-        t = TempFS(temp_dir=H.SCRATCH_ROOT, auto_clean=(kind == "temp"))
+        t = TempFS(temp_dir=H.SCRATCH_ROOT, auto_clean=(kind != "temp-noclean"), ignore_clean_errors=(kind != "temp-strict"))
         d = t._temp_dir
         return K(kind, t, lambda: R.snap_dir(d), lambda: shutil.rmtree(d, ignore_errors=True), temp_dir=d,
-                 auto_clean=(kind == "temp"))
+                 auto_clean=(kind != "temp-noclean"))
     if kind in ("sub(mem)", "closingsub(mem)", "sub(sub(mem))", "cachedir(sub(mem))"):
         m = mem_parent()
         if kind == "sub(mem)":
@@ -403,7 +403,7 @@ class Run:
             td = getattr(t, "_temp_dir", None)
             if td and os.path.exists(td):
                 self.viol(case, "%s: the temporary directory %s survives close()" % (kind, td), True, "C18/archive/temp-dir")
-        if kind in ("temp", "temp-noclean"):
+        if kind in ("temp", "temp-noclean", "temp-strict"):
             m = parse_kv(self.drv.batch(["temp.close %d" % (1 if k.info["auto_clean"] else 0)])[0])
             exists = os.path.isdir(k.info["temp_dir"])
             rep.disagreements_checked += 1
